@@ -195,7 +195,8 @@ func cmdCheck(args []string) int {
 				if r.R.Status != "unsat" {
 					feasible[r.O.Func]++
 				}
-			} else if r.R.Status == "unsat" {
+			} else if r.O.Kind == "vacuity-pre" {
+			} else if r.R.Status == "unsat" && !(r.O.Kind == "vacuity-post" && preUnsat(rr, r.O.Key)) {
 				vacuous = append(vacuous, r.O.Key+": "+r.O.Desc)
 			}
 			continue
